@@ -83,6 +83,8 @@ func main() {
 	only := flag.String("only", "", "run only this rule (debugging)")
 	selftest := flag.String("mutants", "", "run the mutant/variant self-test for this property id (or 'all') and print a table")
 	verbose := flag.Bool("v", false, "print every obligation")
+	sweep := flag.Bool("sweep", false, "mutation sweep over the repository (exploration aid): every syntactic mutant is analysed with all rules")
+	sweepOnly := flag.String("sweep-file", "", "restrict the sweep to files whose path contains this string")
 	docgen := flag.Bool("doc", false, "print the per-property section and rule index of DESIGN.md")
 	manifest := flag.Bool("manifest", false, "print MANIFEST.json generated from the property table")
 	provDbg := flag.String("prov", "", "print provenance of stores/returns/call arguments of the module function with this key (debugging)")
@@ -96,6 +98,9 @@ func main() {
 	if *docgen {
 		emitDoc()
 		return
+	}
+	if *sweep {
+		os.Exit(runSweep(*repo, *sweepOnly, 8))
 	}
 	if *provDbg != "" {
 		c, err := Load(*repo, modPath, nil, nil)
